@@ -1,4 +1,5 @@
 import Copia.Lemmas.Hub1
+import Copia.Lemmas.Meta1
 /-!
 # C11 — a hub client can never reach outside the served directory
 
@@ -83,6 +84,84 @@ theorem conflict_copy_under_root (root rel q short : List Char) (h : safeJoin ro
     · revert hm; decide
     · exact hs hm
   · simp
+
+/-- `-N` suffixes contain no `/` -/
+theorem ccSuffix_no_slash (n : Nat) : '/' ∉ ccSuffix n := by
+  unfold ccSuffix
+  split
+  · simp
+  · intro hm
+    rcases List.mem_cons.mp hm with e | hm
+    · revert e; decide
+    · obtain ⟨d, hd, hc⟩ := Copia.Meta.decimal_all n _ hm
+      have : d = 0 ∨ d = 1 ∨ d = 2 ∨ d = 3 ∨ d = 4 ∨ d = 5 ∨ d = 6 ∨ d = 7 ∨ d = 8 ∨ d = 9 := by omega
+      rcases this with rfl | rfl | rfl | rfl | rfl | rfl | rfl | rfl | rfl | rfl <;> revert hc <;> decide
+
+/-- whatever the tree holds, the name the hub picks for a conflict copy is `<p>.conflict-<short>` or that with a `-N` suffix -/
+theorem ccPick_form {H} [DecidableEq H] (hash : Bytes → H) (t : HTree) (p short : List Char) (h : H) :
+    ∀ (fuel n : Nat), ∃ m, ccPick hash t p short h fuel n = cnameOf p (short ++ ccSuffix m)
+  | 0, n => ⟨n, rfl⟩
+  | fuel+1, n => by
+    unfold ccPick
+    simp only []
+    split
+    · exact ccPick_form hash t p short h fuel (n+1)
+    · exact ⟨n, rfl⟩
+
+/-- C11: the conflict-copy name the (repaired) hub picks stays under the root, for every tree -/
+theorem picked_conflict_copy_under_root {H} [DecidableEq H] (hash : Bytes → H) (t : HTree)
+    (root rel q short : List Char) (hh : H) (h : safeJoin root rel = some q) (hs : '/' ∉ short) (fuel n : Nat) :
+    osResolve root <+: osResolve (ccPick hash t q short hh fuel n) := by
+  obtain ⟨m, e⟩ := ccPick_form hash t q short hh fuel n
+  rw [e]
+  apply conflict_copy_under_root root rel q _ h
+  intro hm
+  rcases List.mem_append.mp hm with hm | hm
+  · exact hs hm
+  · exact ccSuffix_no_slash m hm
+
+/-- the picked name is free or holds the same hash — unless the fuel ran out (every one of `fuel + 1` names was
+taken by other content; with fuel = tree size + 1 that cannot happen on a real tree) -/
+theorem ccPick_free_or_exhausted {H} [DecidableEq H] (hash : Bytes → H) (t : HTree) (p short : List Char) (h : H) :
+    ∀ (fuel n : Nat),
+      (let k := osResolve (ccPick hash t p short h fuel n)
+       occupied t k = false ∨ (hget t k).map hash = some h) ∨
+      (∀ j, j ≤ fuel → occupied t (osResolve (cnameOf p (short ++ ccSuffix (n + j)))) = true ∧
+        (hget t (osResolve (cnameOf p (short ++ ccSuffix (n + j))))).map hash ≠ some h)
+  | 0, n => by
+    by_cases hc : occupied t (osResolve (cnameOf p (short ++ ccSuffix n))) = true ∧
+        (hget t (osResolve (cnameOf p (short ++ ccSuffix n)))).map hash ≠ some h
+    · right; intro j hj; have : j = 0 := by omega
+      subst this; simpa using hc
+    · left
+      simp only [ccPick]
+      by_cases ho : occupied t (osResolve (cnameOf p (short ++ ccSuffix n))) = true
+      · right
+        apply Classical.byContradiction
+        intro hne; exact hc ⟨ho, hne⟩
+      · left; simpa using ho
+  | fuel+1, n => by
+    unfold ccPick
+    simp only []
+    split
+    · next hcond =>
+      simp only [Bool.and_eq_true, decide_eq_true_eq] at hcond
+      rcases ccPick_free_or_exhausted hash t p short h fuel (n+1) with ok | ex
+      · exact Or.inl ok
+      · right
+        intro j hj
+        cases j with
+        | zero => simpa using hcond
+        | succ j =>
+          have := ex j (by omega)
+          rw [show n + 1 + j = n + (j + 1) by omega] at this
+          exact this
+    · next hcond =>
+      left
+      simp only [Bool.and_eq_true, decide_eq_true_eq, not_and, Classical.not_not] at hcond
+      by_cases ho : occupied t (osResolve (cnameOf p (short ++ ccSuffix n))) = true
+      · right; exact hcond ho
+      · left; simpa using ho
 
 /-- C11 (refusal): a path is refused exactly when it is absolute or has a `..` component. -/
 theorem refused_iff (root rel : List Char) :
